@@ -7,16 +7,6 @@ import FB.Wire
 open FB FB.Wire
 open Lean (Json)
 
-/-- canonical form of a version value shown to function bodies: JSON-equal versions look alike -/
-partial def canon : FB.Json → FB.Json
-  | .num n => match n.key with
-    | .inl (i, 0) => .num (.int i)
-    | _ => .num n
-  | .arr xs => .arr (xs.map canon)
-  | .tup xs => .arr (xs.map canon)
-  | .obj kvs => .obj (sortKeys (kvs.map fun (k, v) => (k, canon v)))
-  | j => j
-
 /-- external change between builds -/
 def applyMut (fs : FS) (kind : String) (p : Path) (bytes : Option String) (mtime : Option Nat) :
     Except String FS :=
@@ -42,6 +32,12 @@ def applyMut (fs : FS) (kind : String) (p : Path) (bytes : Option String) (mtime
           let c := if last = 'x' then 'y' else 'x'
           fs.set p (.file ((b.dropEnd 1).toString.push c) m)
       | _ => fs)
+  | "corrupt" =>
+    -- the cache file is replaced by something `read_immutable` rejects (class named in `bytes`)
+    .ok (match fs.get p with | some (.file _ _) => fs.set p (.file ("CORRUPT:" ++ bytes.getD "") 1) | _ => fs)
+  | "todir" =>
+    -- a regular file is replaced by an empty directory
+    .ok (match fs.get p with | some (.file _ _) => fs.set p .dir | _ => fs)
   | k => .error s!"bad mutation {k}"
 
 /-- the record the cache file currently stands for (null: none / unreadable) -/
@@ -54,7 +50,7 @@ def showRec (w : World) (cf : Path) : Lean.Json :=
 
 def lookupVersion (versions : List (String × FB.Json)) (name : String) : FB.Json :=
   match versions.find? (·.1 = name) with
-  | some (_, v) => canon v
+  | some (_, v) => v
   | none => .null
 
 def runHist (j : Lean.Json) : Except String Lean.Json := do
